@@ -172,6 +172,7 @@ func run(engine string, c *Case, listen bool) runResult {
 		res.tr.Inst = wz.Outcome{Kind: wz.KOther, Detail: "compile: " + err.Error()}
 		return res
 	}
+	s.Host.MaxLog = 0 // unlimited: the log is ground truth here (fuel bounds the number of calls)
 	in := s.Instantiate(lctx, nil)
 	cut := func() {
 		res.perCal = append(res.perCal, rec.ev)
